@@ -101,6 +101,8 @@ def _load_neutron():
     from . import nsf
     nsf.init(elements)
 core.delayed_load(['neutron'], _load_neutron, isotope=True)
+# nuclear_spin is filled in by the neutron loader, for isotopes only
+core.delayed_load(['nuclear_spin'], _load_neutron, element=False, isotope=True)
 
 def _load_neutron_activation():
     """
